@@ -43,6 +43,13 @@ Accepted subset, common part (anything else raises TranslateError, file:line):
               A local dict with constant string keys built by a literal and
               d[key] = e is kept as one variable per key (d_key); `return d`
               yields the tuple of its fields in the order the kernel fixes.
+              A variable first bound by a loop is accepted when it is bound on
+              every way out of it (`x = e` in the for ... else block and `x = ..`
+              before each `break`) and not read inside: it is loop state whose
+              value before the loop is an "undefined" value that is never read.
+              `for i, (a, b) in enumerate(l)` unpacks a pair-valued item (`_` is a
+              name that may not be read).  d[key] = [comprehension] is a fresh
+              list.
               A None sentinel: `x = None`, `x = e` (stored as Some e while x may
               still be None), `if x is None: .. else: ..` / `is not None` (a match;
               in the not-None branch and after `if x is None: x = e` x is the
@@ -687,6 +694,8 @@ class Tr:
                 d["fields"][key] = var
             env.types[var] = want
             env.fresh.discard(var)
+            if isinstance(s.value, ast.ListComp):
+                env.fresh.add(var)         # a new list nothing else refers to
             return self.line(ind, "let %s := %s in" % (var, text), s)
         # l[i] = e  on a fresh local list (plain name or field of a local dict)
         if isinstance(t, ast.Subscript):
@@ -894,6 +903,7 @@ class Tr:
     def for_(self, s, rest, env, k, ind):
         it = s.iter
         body, orelse = list(s.body), list(s.orelse)
+        pre = self.loop_defined(s, env, ind)      # variables first bound by the loop on every way out of it
         names = [n for n in self.assigned(body + orelse) if n in env.types]
         inner = env.copy()
         inner.carried = inner.carried | set(names)
@@ -901,22 +911,33 @@ class Tr:
         binders = []
         if isinstance(it, ast.Call) and isinstance(it.func, ast.Name) and it.func.id == "enumerate" \
                 and len(it.args) == 1 and not it.keywords:
-            if not (isinstance(s.target, ast.Tuple) and len(s.target.elts) == 2
-                    and all(isinstance(x, ast.Name) for x in s.target.elts)):
+            if not (isinstance(s.target, ast.Tuple) and len(s.target.elts) == 2 and isinstance(s.target.elts[0], ast.Name)):
                 self.fail(s, "enumerate needs the target `pos, item`")
-            pos, x = s.target.elts[0].id, s.target.elts[1].id
+            pos, xt = s.target.elts[0].id, s.target.elts[1]
             lst = self.list_var(it.args[0], env)
             if lst is not None and lst in names:
                 # the body assigns items of the iterated list
                 self.only_item_stores(s, lst, it.args[0], env)
                 ety = self.elem_type(s, env.types[lst])
-                proj = "(fun %s => %s)" % (pat, lst)
-                head = "for_enum_cur %s %s %s (fun %s %s %%s =>" % (self.undef_of(s, ety), lst, proj, pos, x)
             else:
                 l, tl = self.expr(it.args[0], env)
                 ety = self.elem_type(s, tl)
+            if isinstance(xt, ast.Name):
+                x, item_binders = xt.id, [(xt.id, ety)]
+            elif isinstance(xt, ast.Tuple) and len(xt.elts) == 2 and all(isinstance(e2, ast.Name) for e2 in xt.elts) \
+                    and (xt.elts[0].id != xt.elts[1].id):
+                # for pos, (a, b) in enumerate(l): the item is unpacked; `_` is a name that is not read
+                tys = self.pair_types(s, ety)
+                x = "'(%s, %s)" % (xt.elts[0].id, xt.elts[1].id)
+                item_binders = [(e2.id, ty2) for e2, ty2 in zip(xt.elts, tys) if e2.id != "_"]
+            else:
+                self.fail(s, "enumerate needs the target `pos, item` or `pos, (a, b)`")
+            if lst is not None and lst in names:
+                proj = "(fun %s => %s)" % (pat, lst)
+                head = "for_enum_cur %s %s %s (fun %s %s %%s =>" % (self.undef_of(s, ety), lst, proj, pos, x)
+            else:
                 head = "for_enum %s (fun %s %s %%s =>" % (_paren(l), pos, x)
-            binders = [(pos, NAT), (x, ety)]
+            binders = [(pos, NAT)] + item_binders
         elif isinstance(it, ast.Call) and isinstance(it.func, ast.Name) and it.func.id == "range" \
                 and len(it.args) == 2 and not it.keywords:
             if not isinstance(s.target, ast.Name):
@@ -960,7 +981,7 @@ class Tr:
         body_k = K(lambda _n: cont, lambda _n: cont, lambda _n: "Brk %s" % tup,
                    lambda n, t, ty: "Ret %s" % _paren(k.ret(n, t, ty)),
                    lambda n: "Ret %s" % _paren(k.rais(n)))
-        out = self.line(ind, head % pat, s)
+        out = pre + self.line(ind, head % pat, s)
         out += _close(self.block(body, inner, body_k, ind + 2), ")")
         self.merge(s, env, [inner])
         # loop variables are not visible after the loop (Python would leak them; not supported)
@@ -979,6 +1000,65 @@ class Tr:
             out += self.line(ind, "%s (fun st => st) (fun %s =>" % (tup, pat))
         out += _close(self.block(rest, env, k, ind), ")")
         return out
+
+    def loop_defined(self, s, env, ind):
+        """Variables that do not exist before the loop and are bound on EVERY way out of it: by a plain
+        `x = e` in the else block, and by a plain `x = ..` in the same statement list before each `break` of this
+        loop (so that x is bound after the loop however it ends).  They become loop state; their value before
+        the loop is never read (Python has no binding there): an "undefined" value of their type.  The type is
+        that of the else block's right-hand side.  -> text of the lets that introduce them."""
+        if not s.orelse:
+            return ""
+        cand = []
+        for st in s.orelse:
+            if isinstance(st, ast.Assign) and len(st.targets) == 1 and isinstance(st.targets[0], ast.Name) \
+                    and st.targets[0].id not in env.types and st.targets[0].id not in env.recs:
+                cand.append((st.targets[0].id, st.value))
+
+        def breaks_ok(stmts, name):
+            """every break (of this loop) in stmts is preceded, in its own statement list, by `name = ..`"""
+            bound = False
+            for st in stmts:
+                if isinstance(st, ast.Assign) and len(st.targets) == 1 and isinstance(st.targets[0], ast.Name) \
+                        and st.targets[0].id == name:
+                    bound = True
+                elif isinstance(st, ast.Break):
+                    if not bound:
+                        return False
+                elif isinstance(st, ast.If):
+                    if not (breaks_ok(st.body, name) if not bound else True) or \
+                            not (breaks_ok(st.orelse, name) if not bound else True):
+                        return False
+                elif isinstance(st, (ast.For, ast.While)):
+                    pass        # a break inside a nested loop does not leave this one
+                elif any(isinstance(m, ast.Break) for m in ast.walk(st)):
+                    return False
+            return True
+
+        out = ""
+        for name, value in cand:
+            if not breaks_ok(s.body, name):
+                continue
+            # the name may not be read inside the loop (there it can still be unbound)
+            reads = [m for st in s.body + s.orelse for m in ast.walk(st)
+                     if isinstance(m, ast.Name) and m.id == name and isinstance(m.ctx, ast.Load)]
+            if reads:
+                continue
+            _t, ty = self.expr(value, env)
+            if self.pending:
+                self.fail(s, "partial computation in the else block of a loop")
+            self.check_name(s, name)
+            env.types[name] = ty
+            out += self.line(ind, "let %s := %s in" % (name, self.undef_value(s, ty)),)
+        return out
+
+    def undef_value(self, node, ty):
+        """the value of a variable that has no binding yet (never read)"""
+        if ty == NAT:
+            return "0"
+        if ty == BOOL:
+            return "false"
+        return self.undef_of(node, ty)
 
     def only_item_stores(self, s, lst, lst_expr, env):
         """the body of s touches the iterated list only by `l[j] = e`"""
@@ -1100,8 +1180,9 @@ class WalkTr(Tr):
         self.fail(node, "no list type for elements of type %s" % ety)
 
     def undef_of(self, node, ty):
-        if ty == NODE:
-            return "undef_node"
+        table = {NODE: "undef_node", HBASE: "undef_base", GROUP: "undef_group", T: "undef_draw"}
+        if ty in table:
+            return table[ty]
         self.fail(node, "no undefined value of type %s" % ty)
 
     @staticmethod
